@@ -5191,7 +5191,7 @@ CONTAINS
     CHARACTER(*) :: family
     INTEGER, INTENT(OUT) :: ier
     CHARACTER(len=1, kind=C_CHAR) :: c_name(MAX_LEN+1)
-    CHARACTER(len=1, kind=C_CHAR) :: c_family(MAX_LEN+1)
+    CHARACTER(len=1, kind=C_CHAR) :: c_family(20*(MAX_LEN+1)+1)
     INTERFACE
       INTEGER(C_INT) FUNCTION cg_family_name_read(fn, B, F, N, name, family) BIND(C, name="cg_family_name_read")
         IMPORT :: C_INT, C_CHAR
@@ -5341,7 +5341,7 @@ CONTAINS
     CHARACTER(*) :: family
     INTEGER, INTENT(OUT) :: ier
     CHARACTER(len=1, kind=C_CHAR) :: c_name(MAX_LEN+1)
-    CHARACTER(len=1, kind=C_CHAR) :: c_family(MAX_LEN+1)
+    CHARACTER(len=1, kind=C_CHAR) :: c_family(20*(MAX_LEN+1)+1)
     INTERFACE
       INTEGER(C_INT) FUNCTION cg_node_family_name_read(N, name, family) BIND(C, name="cg_node_family_name_read")
         IMPORT :: C_INT, C_CHAR
